@@ -35,6 +35,15 @@ package tr
 // for a configured call with effects (LFunc.ErrCalls): a match on the call's result with one arm
 // per outcome (error: the if body; ok: the rest, with the modified state rebound; panic).
 // A range loop is a plain fold_left unless its body returns or may panic: then it is a loop_fold.
+// Extensions used for mputil.Group and annotate.Change/addUpdate: named results (zero-initialised
+// variables), qualified package-level names (LCfg.Globals["pkg.Name"]), option-valued pointer
+// variables (LFunc.OptionVars):  if p == nil { ..terminates } REST  is a match on the option with
+// p rebound to the pointee in REST, and  if [p := E;] p != nil { body }  the symmetric match;
+// statements that call a method with an effect on a local variable (LFunc.StmtCalls);
+// x.F = E on a local struct variable; composite literals with named fields (missing fields take the
+// StructMap default), slice literals T{a, b} as lists; multi-value calls of configured functions;
+// and  x, err := CALL ; if err != nil { ..return }  for a call configured with SumCall (a match on
+// inl/inr).
 // <atom>s are expressions the translator must not look into (interface calls, error values):
 // they are matched by their source text and replaced by a configured Coq term.
 // Anything outside the grammar is an error: the definition is then missing from the generated
@@ -58,6 +67,8 @@ type StructMap struct {
 	Coq    string
 	Ctor   string
 	Fields [][2]string
+	// Defaults gives, per Go field, the Coq term used when a composite literal omits the field.
+	Defaults map[string]string
 }
 
 // LCfg is the configuration shared by the functions of one generated file.
@@ -89,6 +100,9 @@ type LFunc struct {
 	Result     string            // Coq result type
 	Panic      string            // Coq term for an index out of range
 	ErrCalls   map[string]*ErrCall // source text of CALL in `if err := CALL; err != nil {..}`
+	OptionVars map[string]bool     // Go pointer variables whose Coq value is an option (nil = None)
+	StmtCalls  map[string][2]string // source text of a call statement -> {Coq variable rebound, Coq term}
+	SumCalls   map[string]string   // source text of CALL in `x, err := CALL` followed by `if err != nil` -> Coq term (A + E)
 	Partial    bool              // the function may panic: results are wrapped with RetWrap, loops use loop_fold
 	RetWrap    string            // format applied to a returned value, e.g. "(Some %s)"; default "%s"
 }
@@ -398,6 +412,14 @@ func (t *LT) exprP(e ast.Expr) (string, bool, error) {
 				}
 			}
 		}
+		if id, ok := x.X.(*ast.Ident); ok {
+			if _, isPkg := t.p.Info.Uses[id].(*types.PkgName); isPkg {
+				if g, ok := t.cfg.Globals[id.Name+"."+x.Sel.Name]; ok {
+					return g, false, nil
+				}
+				return "", false, t.errf(e, "unmapped name %s.%s", id.Name, x.Sel.Name)
+			}
+		}
 		sm := t.structOf(x.X)
 		if sm == nil {
 			return "", false, t.errf(e, "field of an unmapped type")
@@ -539,7 +561,56 @@ func (t *LT) exprP(e ast.Expr) (string, bool, error) {
 }
 
 func (t *LT) composite(cl *ast.CompositeLit) (string, error) {
-	name := namedName(t.p.Info.Types[cl].Type)
+	ty := t.p.Info.Types[cl].Type
+	// slice literal T{a, b}
+	if _, isSlice := ty.Underlying().(*types.Slice); isSlice {
+		var els []string
+		for _, el := range cl.Elts {
+			if _, isKV := el.(*ast.KeyValueExpr); isKV {
+				return "", t.errf(cl, "keyed slice literal")
+			}
+			v, err := t.expr(el)
+			if err != nil {
+				return "", err
+			}
+			els = append(els, v)
+		}
+		return "[" + strings.Join(els, "; ") + "]", nil
+	}
+	name := namedName(ty)
+	// a mapped struct with a constructor: named fields in constructor order, defaults for the rest
+	if sm, ok := t.cfg.Structs[name]; ok && sm.Ctor != "" && sm.Defaults != nil {
+		given := map[string]string{}
+		for _, el := range cl.Elts {
+			kv, ok := el.(*ast.KeyValueExpr)
+			if !ok {
+				return "", t.errf(cl, "positional composite literal")
+			}
+			key, ok := kv.Key.(*ast.Ident)
+			if !ok {
+				return "", t.errf(cl, "unsupported field key")
+			}
+			v, err := t.expr(kv.Value)
+			if err != nil {
+				return "", err
+			}
+			if sm.proj(key.Name) == "" {
+				return "", t.errf(cl, "field %s is not modelled", key.Name)
+			}
+			given[key.Name] = v
+		}
+		out := "(" + sm.Ctor
+		for _, f := range sm.Fields {
+			v, ok := given[f[0]]
+			if !ok {
+				if v, ok = sm.Defaults[f[0]]; !ok {
+					return "", t.errf(cl, "field %s has no default", f[0])
+				}
+			}
+			out += " " + v
+		}
+		return out + ")", nil
+	}
 	ctor, ok := t.cfg.Ctors[name]
 	if !ok {
 		return "", t.errf(cl, "composite literal of unmapped type %s", name)
@@ -654,6 +725,16 @@ func (t *LT) assigned(l []ast.Stmt) []string {
 					if ec, ok := t.fn.ErrCalls[t.src(ia.Rhs[0])]; ok {
 						for _, m := range ec.Modifies {
 							set[m] = token.Pos(1)
+						}
+					}
+				}
+			}
+			if es, ok := n.(*ast.ExprStmt); ok {
+				if sc, ok := t.fn.StmtCalls[t.src(es.X)]; ok && !local[strings.TrimPrefix(sc[0], "v_")] {
+					set[sc[0]] = token.Pos(2)
+					for name, v := range t.env {
+						if v == sc[0] {
+							set[sc[0]] = t.decl[name]
 						}
 					}
 				}
@@ -806,7 +887,36 @@ func (t *LT) block(l []ast.Stmt, k kont) (string, error) {
 		}
 		r, err := rest()
 		return out + r, err
+	case *ast.ExprStmt:
+		if sc, ok := t.fn.StmtCalls[t.src(s.X)]; ok {
+			r, err := rest()
+			return fmt.Sprintf("let %s := %s in\n  %s", sc[0], sc[1], r), err
+		}
+		return "", t.errf(s, "unsupported expression statement %s", t.src(s.X))
 	case *ast.AssignStmt:
+		// x, err := CALL ; if err != nil { ..return }   for a SumCall
+		if len(s.Lhs) == 2 && len(s.Rhs) == 1 && len(l) >= 2 {
+			if term, ok := t.fn.SumCalls[t.src(s.Rhs[0])]; ok {
+				x, okx := s.Lhs[0].(*ast.Ident)
+				e, oke := s.Lhs[1].(*ast.Ident)
+				ifs, oki := l[1].(*ast.IfStmt)
+				if !okx || !oke || !oki || ifs.Init != nil || ifs.Else != nil ||
+					t.src(ifs.Cond) != e.Name+" != nil" || !terminates(ifs.Body.List) {
+					return "", t.errf(s, "a sum call must be followed by  if err != nil { ..return }")
+				}
+				ev := t.bind(e.Name, e.Pos())
+				a, err := t.block(ifs.Body.List, k)
+				if err != nil {
+					return "", err
+				}
+				xv := t.bind(x.Name, x.Pos())
+				r, err := t.block(l[2:], k)
+				if err != nil {
+					return "", err
+				}
+				return fmt.Sprintf("match %s with\n  | inr %s => %s\n  | inl %s => %s\n  end", term, ev, a, xv, r), nil
+			}
+		}
 		return t.assign(s, k, rest)
 	case *ast.IncDecStmt:
 		id, ok := s.X.(*ast.Ident)
@@ -860,6 +970,66 @@ func (t *LT) ifStmt(s *ast.IfStmt, after []ast.Stmt, k kont) (string, error) {
 				out += fmt.Sprintf("\n  | %s => %s", ec.PanicPat, pn)
 			}
 			return out + "\n  end", nil
+		}
+	}
+	// nil tests on option-valued pointer variables
+	if be, ok := s.Cond.(*ast.BinaryExpr); ok && (be.Op == token.EQL || be.Op == token.NEQ) && s.Else == nil {
+		if id, ok := be.X.(*ast.Ident); ok && t.fn.OptionVars[id.Name] && t.src(be.Y) == "nil" {
+			pre := ""
+			if s.Init != nil {
+				as, ok := s.Init.(*ast.AssignStmt)
+				if !ok || as.Tok != token.DEFINE || len(as.Lhs) != 1 || len(as.Rhs) != 1 || t.src(as.Lhs[0]) != id.Name {
+					return "", t.errf(s, "unsupported initialiser of a nil test")
+				}
+				v, err := t.expr(as.Rhs[0])
+				if err != nil {
+					return "", err
+				}
+				pre = fmt.Sprintf("let %s := %s in\n  ", t.bind(id.Name, id.Pos()), v)
+			}
+			ov, err := t.expr(id)
+			if err != nil {
+				return "", err
+			}
+			if be.Op == token.EQL {
+				if !terminates(s.Body.List) {
+					return "", t.errf(s, "if p == nil needs a terminating body")
+				}
+				a, err := t.block(s.Body.List, k)
+				if err != nil {
+					return "", err
+				}
+				r, err := t.block(after, k) // p is the pointee from here on
+				if err != nil {
+					return "", err
+				}
+				return fmt.Sprintf("%smatch %s with\n  | None => %s\n  | Some %s => %s\n  end", pre, ov, a, ov, r), nil
+			}
+			// p != nil { body } ; after
+			if terminates(s.Body.List) {
+				a, err := t.block(s.Body.List, k)
+				if err != nil {
+					return "", err
+				}
+				r, err := t.block(after, k)
+				if err != nil {
+					return "", err
+				}
+				return fmt.Sprintf("%smatch %s with\n  | Some %s => %s\n  | None => %s\n  end", pre, ov, ov, a, r), nil
+			}
+			sv := t.assigned(s.Body.List)
+			t.nK++
+			kn := fmt.Sprintf("K%d", t.nK)
+			call := kn + " " + tuple(sv)
+			a, err := t.block(s.Body.List, kont{fall: call, cont: k.cont, ret: k.ret})
+			if err != nil {
+				return "", err
+			}
+			r, err := t.block(after, k)
+			if err != nil {
+				return "", err
+			}
+			return fmt.Sprintf("let %s := %s in\n  %smatch %s with\n  | Some %s => %s\n  | None => %s\n  end", kn, funTuple(sv, r), pre, ov, ov, a, call), nil
 		}
 	}
 	if s.Init != nil {
@@ -1033,7 +1203,11 @@ func (t *LT) assign(s *ast.AssignStmt, k kont, rest func() (string, error)) (str
 	if len(s.Lhs) > 1 && len(s.Rhs) == 1 {
 		a, ok := t.fn.Atoms[t.src(s.Rhs[0])]
 		if !ok {
-			return "", t.errf(s, "multi-value call is not an atom: %s", t.src(s.Rhs[0]))
+			v, partial, err := t.exprP(s.Rhs[0])
+			if err != nil || partial {
+				return "", t.errf(s, "multi-value call is neither an atom nor a configured call: %s", t.src(s.Rhs[0]))
+			}
+			a = v
 		}
 		var vars []string
 		for _, l := range s.Lhs {
@@ -1330,17 +1504,43 @@ func TranslateLoopFunc(p *Pkg, cfg *LCfg, fn *LFunc) (string, error) {
 			if err != nil {
 				return "", fmt.Errorf("%s: parameter %s: %v", fn.Key, n.Name, err)
 			}
+			if fn.OptionVars[n.Name] {
+				ct = "(option " + ct + ")"
+			}
 			t.env[n.Name] = "a_" + n.Name
 			t.decl[n.Name] = n.Pos()
 			binders = append(binders, fmt.Sprintf("(a_%s : %s)", n.Name, ct))
+		}
+	}
+	pre := ""
+	if fd.Type.Results != nil {
+		for _, f := range fd.Type.Results.List {
+			for _, n := range f.Names {
+				ct, err := t.coqType(p.Info.Types[f.Type].Type)
+				if err != nil {
+					return "", fmt.Errorf("%s: result %s: %v", fn.Key, n.Name, err)
+				}
+				zero := "0"
+				switch {
+				case strings.HasPrefix(ct, "(list "):
+					zero = "(@nil " + strings.TrimSuffix(strings.TrimPrefix(ct, "(list "), ")") + ")"
+				case ct == "bool":
+					zero = "false"
+				case ct == "string":
+					zero = "\"\""
+				case ct != "Z":
+					return "", fmt.Errorf("%s: no zero value for result %s", fn.Key, n.Name)
+				}
+				pre += fmt.Sprintf("let %s := %s in\n  ", t.bind(n.Name, n.Pos()), zero)
+			}
 		}
 	}
 	body, err := t.block(fd.Body.List, kont{ret: func(v string) string { return v }})
 	if err != nil {
 		return "", fmt.Errorf("%s: %v", fn.Key, err)
 	}
-	return fmt.Sprintf("(* %s  %s *)\nDefinition %s %s : %s :=\n  %s.\n", p.Pos(fd), fn.Key, fn.Name,
-		strings.Join(binders, " "), fn.Result, body), nil
+	return fmt.Sprintf("(* %s  %s *)\nDefinition %s %s : %s :=\n  %s%s.\n", p.Pos(fd), fn.Key, fn.Name,
+		strings.Join(binders, " "), fn.Result, pre, body), nil
 }
 
 // EmitLoopFuncs renders the functions; failures become comments (and missing definitions).
